@@ -375,8 +375,32 @@ impl Property for C07 {
                 };
                 let t = RewriteTable::parse(table);
                 let run = |s: &str| normalized_text(&l.dict, s).map_err(|e| format!("{}", e));
+                // the same plugin configured twice in a row (every other table): the second instance works on the output of
+                // the first, so the result is the reference applied twice
+                let twice = if table.len() % 2 == 0 {
+                    load_with(ctx, &base_cfg(vec![InputPlugin::Default { rewrite: FileSrc::Text(table.clone()) }, InputPlugin::Default { rewrite: FileSrc::Text(table.clone()) }], FileSrc::Shipped)).ok()
+                } else {
+                    None
+                };
                 for x in texts {
                     let x = &render_dtext(table, x);
+                    if let Some(l2) = &twice {
+                        let (w1, a1) = reference_default(&t, x);
+                        let (w2, a2) = reference_default(&t, &w1);
+                        if a1.is_none() && a2.is_none() {
+                            match normalized_text(&l2.dict, x) {
+                                Ok(g2) if g2 == w2 => rep.class("two instances in a row"),
+                                Ok(g2) => {
+                                    rep.fail("default-twice-reference", format!("table {:?} text {:?}: two instances of the plugin in a row give {:?}, the reference applied twice gives {:?} (once: {:?})", table, x, g2, w2, w1));
+                                    return rep;
+                                }
+                                Err(e) => {
+                                    // the first pass may push the text over the length limit
+                                    let _ = e;
+                                }
+                            }
+                        }
+                    }
                     let got = match run(x) {
                         Ok(g) => g,
                         Err(e) => {
